@@ -448,6 +448,13 @@ def call_by_contract(ex, c: Contract, pos, kw, st: State, site='') -> SV:
     post = CCtx(h_before, h_after, args, ghosts, result)
     for (nm, f) in c.ensures(post):
         st.assume(f)
+    hint = ex.contract.call_lemmas.get(c.short) if hasattr(ex.contract, 'call_lemmas') else None
+    if hint is not None:
+        lc = CCtx(h_before, h_after, args, ghosts, result, extra={'ex': ex, 'st': st, 'caller_h0': ex.h0, 'locals': st.locals,
+                                                                    'loops': list(ex.loop_ctx_stack)})
+        for (nm, f) in hint(lc):
+            ex.oblige('%s.lemma.%s' % (tag, nm), st, f, 'lemma')
+            st.assume(f)
     return result
 
 
